@@ -255,6 +255,37 @@ def rel_of(x, y, order):
     return "x-unit-earlier" if order.index(ux) < order.index(uy) else "x-unit-later"
 
 
+def model_priority(sec):
+    """Priority as GNU ld's SORT_BY_INIT_PRIORITY sees it; None for the unsuffixed names. Used
+    only to NAME the class of a disagreement, never to decide one."""
+    parts = sec[1:].split(".")
+    if len(parts) == 1:
+        return None
+    n = int(parts[1])
+    return 65535 - n if parts[0] in ("ctors", "dtors") else n
+
+
+def inversion_class(x, y, order):
+    """x precedes y in GNU ld's array and follows it in wild's."""
+    _ux, sx, _ax = NAME_INFO[x]
+    _uy, sy, _ay = NAME_INFO[y]
+    rel = rel_of(x, y, order)
+    if rel == "same-section":
+        return f"order:within-section:{sx}"
+    px, py = model_priority(sx), model_priority(sy)
+    if px is None and py is None:
+        return f"order:plain:{sx}-before-{sy}:{rel}"
+    if py is None:
+        return f"order:suffixed-before-plain:{sx}"
+    if px is None:
+        return f"order:plain-before-suffixed:{sy}"
+    if px != py:
+        return f"order:priority:{sx}-before-{sy}"
+    if sx == sy:
+        return f"order:same-name:{sx}:{rel}"
+    return f"order:equal-priority:{sx[1:].split('.')[0]}-before-{sy[1:].split('.')[0]}"
+
+
 def compare(g, w, order):
     """GNU ld's observation vs wild's -> [(key, what)]."""
     v = []
@@ -290,18 +321,15 @@ def compare(g, w, order):
         if gl == wl or sorted(gl) != sorted(wl) or len(set(gl)) != len(gl):
             continue
         wi = {n: i for i, n in enumerate(wl)}
-        best = None
+        classes = {}
         for a in range(len(gl)):
             for b in range(a + 1, len(gl)):
                 x, y = gl[a], gl[b]
                 if wi[x] > wi[y]:
-                    cls = (NAME_INFO[x][1], NAME_INFO[y][1], rel_of(x, y, order))
-                    if best is None or cls < best[0]:
-                        best = (cls, x, y)
-        cls, x, y = best
-        v.append((f"order:{cls[0]}:{cls[1]}:{cls[2]}",
-                  f"{sec}: GNU ld emits {x} before {y}, wild after; GNU ld: {g.get(sec)} wild: "
-                  f"{w.get(sec)}"))
+                    classes.setdefault(inversion_class(x, y, order), (x, y))
+        for cls, (x, y) in sorted(classes.items()):
+            v.append((cls, f"{sec}: GNU ld emits {x} before {y}, wild after; GNU ld: {g.get(sec)} "
+                      f"wild: {w.get(sec)}"))
     if not v:
         for tag, _at, _st in DT_ARRAYS:
             if g.get(tag) != w.get(tag):
@@ -329,9 +357,44 @@ def run_exe(path):
         return "exec-failed", str(ex).encode()
 
 
+REF_SCHEMA = "c30-v2"
+REF_CACHE = os.path.join(vlib.VERIF, ".build", "refcache", "c30")
+USE_CACHE = os.environ.get("VERIF_NO_REFCACHE", "") == ""
+
+
+def gnu_side(base, m, native, d, ldver, use_cache):
+    """GNU ld's verdict on a member: {"rc", "msg", "obs", "run": [rc, hex]}; memoised on
+    (ld version, flags, input bytes). -> (value, subprocesses spawned)."""
+    contribs, order, kind = m
+    gout = os.path.join(d, "gnu.out")
+    argv = member_argv(base, m, gout)
+    files = argv[len(OUT_FLAGS[kind]):-2]
+    want_run = bool(native and kind == "exe")
+    key = bindkit.ref_key(REF_SCHEMA, ldver, OUT_FLAGS[kind], files, "run" if want_run else "")
+    if use_cache:
+        val = bindkit.ref_get(REF_CACHE, key)
+        if val is not None:
+            return val, 0
+    nsub = 1
+    r = subprocess.run(["ld", *argv], cwd=d, stdout=subprocess.PIPE, stderr=subprocess.PIPE)
+    val = {"rc": r.returncode, "msg": r.stderr.decode("utf-8", "replace")[-300:]}
+    if r.returncode == 0:
+        try:
+            val["obs"] = observe(gout)
+        except elfread.ElfError as ex:
+            val["obs_error"] = str(ex)
+        if want_run:
+            grc, gbytes = run_exe(gout)
+            nsub += 1
+            val["run"] = [grc, gbytes.hex()]
+    if use_cache and "obs_error" not in val:
+        bindkit.ref_put(REF_CACHE, key, val)
+    return val, nsub
+
+
 def run_member(item):
     """-> dict(m, status, viol [(key, what)], sig, nsub, ...)."""
-    base, m, native, keep = item
+    base, m, native, keep, ldver = item
     contribs, order, kind = m
     d = os.path.join(base, keep) if keep else os.path.join(base, f"w{os.getpid()}")
     os.makedirs(d, exist_ok=True)
@@ -341,24 +404,23 @@ def run_member(item):
             os.unlink(p)
         except OSError:
             pass
-    res = dict(m=m, viol=[], nsub=1, status="ok", sig=None, ran=False)
-    r = subprocess.run(["ld", *member_argv(base, m, gout)], cwd=d, stdout=subprocess.PIPE,
-                       stderr=subprocess.PIPE)
+    res = dict(m=m, viol=[], nsub=0, status="ok", sig=None, ran=False)
+    gv, res["nsub"] = gnu_side(base, m, native, d, ldver, USE_CACHE and not keep)
+    res["ref_cached"] = res["nsub"] == 0
     wrc, wmsg = wildrun.server_link(member_argv(base, m, wout), cwd=d)
-    if r.returncode != 0:
+    if gv["rc"] != 0:
         res["status"] = "gnu-rejects" if wrc != 0 else "gnu-rejects-wild-accepts"
-        res["msg"] = r.stderr.decode("utf-8", "replace")[-300:]
+        res["msg"] = gv["msg"]
         return res
+    if "obs_error" in gv:
+        res["status"] = "machinery"
+        res["msg"] = f"GNU ld output unreadable: {gv['obs_error']}"
+        return res
+    g = gv["obs"]
     if wrc != 0:
         res["status"] = "wild-rejects"
         res["viol"].append((f"status:gnu-accepts-wild-rejects:{kind}:rc={wrc}",
                             f"wild failed: {wmsg[-300:]}"))
-        return res
-    try:
-        g = observe(gout)
-    except elfread.ElfError as ex:
-        res["status"] = "machinery"
-        res["msg"] = f"GNU ld output unreadable: {ex}"
         return res
     try:
         w = observe(wout)
@@ -376,9 +438,9 @@ def run_member(item):
     res["n_entries"] = sum(len(g.get(s, [])) for s in OUT_SECS)
     res["gnu_separate_ctors"] = bool(g.get(".ctors") or g.get(".dtors"))
     if native and kind == "exe":
-        grc, gbytes = run_exe(gout)
+        grc, gbytes = gv["run"][0], bytes.fromhex(gv["run"][1])
         wrc2, wbytes = run_exe(wout)
-        res["nsub"] += 2
+        res["nsub"] += 1
         res["ran"] = True
         if grc != 0 or gbytes != predicted_run(g):
             res["status"] = "machinery"
@@ -422,12 +484,10 @@ def family(thorough):
             fam.append(("pairs02", (contrib(a), fixed, contrib(b)), (0, 1, 2), "exe"))
             fam.append(("pairs12", (fixed, contrib(a), contrib(b)), (0, 1, 2), "exe"))
     # command-line order x output kind x section order inside the objects
-    s3 = [tuple(c) for c in itertools.combinations(BASE, 3)]
-    s4 = [tuple(c) for c in itertools.combinations(BASE, 4)]
+    s3 = [tuple(c) + (F,) for c in itertools.combinations(BASE[:6], 3)]
     ntr = 120 if thorough else 12
     for k in range(ntr):
-        pool = s3 if k % 2 == 0 or not thorough else s4
-        tr = [pool[(5 * k + off) % len(pool)] for off in (0, 12, 23)]
+        tr = [s3[(k * mul + add * (k // 20)) % len(s3)] for mul, add in ((1, 0), (7, 1), (13, 3))]
         for order in ORDERS:
             for kind in ("exe", "pie", "shared"):
                 for rev in (False, True):
@@ -482,7 +542,7 @@ def replay(chk):
     base = os.path.join("/dev/shm", f"verif.c30replay.{os.getpid()}")
     os.makedirs(base, exist_ok=True)
     prepare([m], base)
-    res = run_member((base, m, True, "replay"))
+    res = run_member((base, m, True, "replay", bindkit.ld_version()))
     d = os.path.join(base, "replay")
     print("directory:", d)
     print("wild:", vlib.WILD, " ".join(member_argv(base, m, "wild.out")))
@@ -514,7 +574,7 @@ def main():
     t0 = time.time()
     stats = dict(evaluations=0, gnu_rejects=0, gnu_rejects_wild_accepts=0, wild_rejects=0,
                  native_runs=0, members_with_violation=0, run_differs_with_static_violation=0,
-                 gnu_separate_ctors=0, entries_compared=0)
+                 gnu_separate_ctors=0, entries_compared=0, ref_cached=0)
     per_family = {}
     sigs = set()
     nsub = 0
@@ -522,7 +582,8 @@ def main():
     capped = None
     with vlib.scratch("c30") as base:
         n_obj = prepare([m for _t, m in fam], base)
-        items = [(base, m, tag == "orders", None) for tag, m in fam]
+        ldver = bindkit.ld_version()
+        items = [(base, m, tag == "orders", None, ldver) for tag, m in fam]
         tags = [tag for tag, _m in fam]
         chunk = 2048
         done = 0
@@ -535,6 +596,7 @@ def main():
             for tag, res in zip(tags[done:done + chunk], results):
                 m = res["m"]
                 nsub += res["nsub"]
+                stats["ref_cached"] += bool(res.get("ref_cached"))
                 stats["evaluations"] += 1
                 per_family[tag] = per_family.get(tag, 0) + 1
                 if res["status"] == "machinery":
@@ -554,7 +616,7 @@ def main():
                 if res.get("run_differs"):
                     stats["run_differs_with_static_violation"] += 1
                 if res["ran"]:
-                    stats["native_runs"] += 2
+                    stats["native_runs"] += 1
                 if res["sig"] is not None:
                     stats["entries_compared"] += res["n_entries"]
                     stats["gnu_separate_ctors"] += bool(res["gnu_separate_ctors"])
@@ -585,13 +647,15 @@ def main():
         "family": (
             "pairs01: all 128x128 subsets of the 7 base kinds for (u0,u1), u2 fixed {I100,C,F}; "
             "pairs02/pairs12: all 64x64 subsets of size<=3 for (u0,u2) / (u1,u2), third fixed; "
-            "orders: 120 triples of size-3/size-4 subsets (rule: subset[(5k+{0,12,23}) mod n]) x 6 "
+            "orders: 120 triples of {3 of the 6 section kinds}+F (rule: unit i gets combos[(k*{1,7,13}[i] + {0,1,3}[i]*(k//20)) "
+            "mod 20]) x 6 "
             "command-line orders x {exe,pie,shared} x {section order in object, reversed}; "
             "ext: all pairs of subsets of size<=2 of 12 priority kinds (5 base + 7 edge) for "
             "(u0,u1); ext-orders: singles x singles x 5 other orders x {pie,shared}"
             if chk.thorough else
             "pairs01: all 29x29 subsets of size<=2 of the 7 base kinds for (u0,u1), u2 fixed "
-            "{I100,C,F}; orders: 12 triples of size-3 subsets x 6 command-line orders x "
+            "{I100,C,F}; orders: 12 triples of {3 of the 6 section kinds}+F (rule: unit i gets combos[k*{1,7,13}[i] mod 20]) "
+            " x 6 command-line orders x "
             "{exe,pie,shared} x {section order in object, reversed}; ext: 13x13 subsets of size<=1 "
             "of 12 priority kinds for (u0,u1)"),
         "members_per_family": per_family,
@@ -601,8 +665,12 @@ def main():
                     "stated sub-family" if chk.thorough else
                     "subsets of size<=2 crossed pairwise for (u0,u1) only; third unit fixed; "
                     "orders/output kinds on 12 triples; ext kinds singly",
-        "gnu_ld_links": stats["evaluations"], "wild_links": stats["evaluations"],
-        "subprocesses": nsub + 2,
+        "gnu_ld_verdicts": stats["evaluations"], "wild_links": stats["evaluations"],
+        "gnu_ld_verdicts_from_cache": stats["ref_cached"],
+        "gnu_ld_cache": "GNU ld's observation per member is memoised on (ld version, flags, input "
+                        "bytes) under .build/refcache/c30 (VERIF_NO_REFCACHE=1 disables); wild is "
+                        "never cached",
+        "subprocesses": nsub + 3,
         "distinct_unit_objects": n_obj,
         "gnu_rejects_both": stats["gnu_rejects"],
         "gnu_rejects_wild_accepts_not_judged": stats["gnu_rejects_wild_accepts"],
